@@ -21,7 +21,7 @@ P6 == [src |-> "short", cfg |-> "nest_map"]            \* a config holding an EM
 StepEnvs == {Env(TRUE, <<>>), Env(FALSE, <<>>), Env(FALSE, ("A" :> "1")), Env(FALSE, ("A" :> "1") @@ ("C" :> "3"))}
 PluginLists == {Plug(TRUE, <<>>), Plug(FALSE, <<>>), Plug(FALSE, <<P1>>), Plug(FALSE, <<P1, P2>>), Plug(FALSE, <<P3>>),
                 Plug(FALSE, <<P4>>), Plug(FALSE, <<P4, P5>>), Plug(FALSE, <<P6>>)}
-Matrices == {"nil", "empty", "list_ab", "adj_base", "setup_os", "adj_tomb_v", "shadow_a", "dims_empty", "dims_mixed_a", "skiponly_t"}       \* setup_os: exactly one NAMED dimension
+Matrices == {"nil", "empty", "list_ab", "adj_base", "setup_os", "adj_tomb_v", "shadow_a", "dims_empty", "dims_mixed_a", "skiponly_t", "anon_plus_a"}       \* setup_os: exactly one NAMED dimension
 PEnvs == {<<>>, ("A" :> "pa"), ("A" :> "pa") @@ ("B" :> "pb"), ("B" :> ""), ("A" :> "1") }     \* the last: the value a step's own A has
 Keys == {[pair |-> "K1", alg |-> "EdDSA"], [pair |-> "K1", alg |-> "ES512"], [pair |-> "K1", alg |-> "PS512"], [pair |-> "K1", alg |-> "ES256"]}
 
@@ -30,10 +30,10 @@ Kinds == { "none",
   "cmd", "cmd_crlf", "cmd_trailing_nl", "env_add", "env_remove", "env_change", "env_rename",
   "plug_add", "plug_remove", "plug_reorder", "plug_source", "plug_config", "plug_config_deep", "plug_config_scalar", "plug_null_vs_nonempty", "plug_config_nested_null", "plug_config_nested_list", "plug_config_nested_el",
   "repo_slash", "repo_dotgit", "repo_case",
-  "matrix_add", "matrix_remove", "matrix_setup_value", "matrix_adj_with", "matrix_adj_skip", "matrix_adj_extra", "matrix_dim_rename", "matrix_dim_value", "matrix_dim_anon", "matrix_adj_extra_last", "matrix_shadowed_setup", "matrix_empty_dim_rename", "matrix_mixed_dim_value", "matrix_skiponly_flip", "matrix_skiponly_reason", "matrix_skiponly_removed",
+  "matrix_add", "matrix_remove", "matrix_setup_value", "matrix_adj_with", "matrix_adj_skip", "matrix_adj_extra", "matrix_dim_rename", "matrix_dim_value", "matrix_dim_anon", "matrix_anon_plus_value", "matrix_anon_plus_removed", "matrix_adj_extra_last", "matrix_shadowed_setup", "matrix_empty_dim_rename", "matrix_mixed_dim_value", "matrix_skiponly_flip", "matrix_skiponly_reason", "matrix_skiponly_removed",
   "repo", "penv_value", "penv_removed", "penv_twin", "penv_shadowed",
   \* semantic: record and key
-  "rec_alg", "fields_drop_mandatory", "signed_without_command", "signed_without_matrix", "fields_drop_env", "fields_add_env", "fields_add_unknown", "fields_empty",
+  "rec_alg", "fields_drop_mandatory", "signed_without_command", "signed_without_matrix", "signed_without_repo_dup", "fields_drop_env", "fields_add_env", "fields_add_unknown", "fields_empty",
   "value_splice", "value_bitflip", "value_attached", "value_attached_tamper", "key_other_same_alg", "key_other_alg", "keyset_without_signer", "keyset_empty", "plug_source_suffix",
   \* non-semantic
   "env_nil_vs_empty", "plugins_nil_vs_empty", "matrix_nil_vs_empty", "matrix_empty_alloc", "matrix_empty_adj", "plug_source_spelling", "plug_cfg_empty_vs_null",
@@ -79,8 +79,11 @@ MutContent(o, kind) ==
       [] kind = "matrix_skiponly_flip" -> IF o.matrix = "skiponly_t" THEN [o EXCEPT !.matrix = "skiponly_f"] ELSE NA     \* a matrix that is nothing but a skip marker is still signed content
       [] kind = "matrix_skiponly_reason" -> IF o.matrix = "skiponly_t" THEN [o EXCEPT !.matrix = "skiponly_s"] ELSE NA
       [] kind = "matrix_skiponly_removed" -> IF o.matrix = "skiponly_t" THEN [o EXCEPT !.matrix = "nil"] ELSE NA
+      [] kind = "matrix_anon_plus_value" -> IF o.matrix = "anon_plus_a" THEN [o EXCEPT !.matrix = "anon_plus_b"] ELSE NA      \* the anonymous dimension NEXT TO a named one: the named one is content
+      [] kind = "matrix_anon_plus_removed" -> IF o.matrix = "anon_plus_a" THEN [o EXCEPT !.matrix = "list_ab"] ELSE NA
       [] kind = "matrix_mixed_dim_value" -> IF o.matrix = "dims_mixed_a" THEN [o EXCEPT !.matrix = "dims_mixed_b"] ELSE NA
       [] kind = "repo" -> [o EXCEPT !.repo = "https://example.com/other.git"]
+      [] kind = "signed_without_repo_dup" -> [o EXCEPT !.repo = "https://example.com/other.git"]     \* ... presented for ANOTHER repository
       [] kind = "penv_shadowed" -> IF "B" \notin DOMAIN o.env.m THEN [o EXCEPT !.env = Env(FALSE, ("B" :> "pb") @@ o.env.m)] ELSE NA
       [] kind = "env_nil_vs_empty" -> IF DOMAIN o.env.m = {} THEN [o EXCEPT !.env = Env(~o.env.nil, <<>>)] ELSE NA
       [] kind = "plugins_nil_vs_empty" -> IF Len(o.plugins.l) = 0 THEN [o EXCEPT !.plugins = Plug(~o.plugins.nil, <<>>)] ELSE NA
@@ -104,6 +107,7 @@ FieldOp(kind, signed) ==
     CASE kind = "fields_drop_mandatory" -> "drop:repository_url"
       [] kind = "signed_without_command" -> "drop:command"        \* (the VALUE is a real signature over the remaining fields: valueop "partial")
       [] kind = "signed_without_matrix" -> "drop:matrix"
+      [] kind = "signed_without_repo_dup" -> "dropdup:repository_url"   \* a genuine signature over everything but the repository, whose field list names `command` twice (as many entries as there are mandatory fields)
       [] kind = "fields_drop_env" -> IF signed \ Mandatory # {} THEN "drop:" \o (CHOOSE f \in signed \ Mandatory : TRUE) ELSE "na"
       [] kind = "fields_add_env" -> "add:env::UNRELATED"
       [] kind = "fields_add_unknown" -> "add:bogus_field"
@@ -123,7 +127,7 @@ Init ==
                  algop |-> IF kind = "rec_alg" THEN "other" ELSE "same",
                  valueop |-> IF kind = "value_splice" THEN "splice" ELSE IF kind = "value_bitflip" THEN "bitflip"
                              ELSE IF kind \in {"value_attached", "value_attached_tamper"} THEN "attach"
-                             ELSE IF kind \in {"signed_without_command", "signed_without_matrix"} THEN "partial" ELSE "same",
+                             ELSE IF kind \in {"signed_without_command", "signed_without_matrix", "signed_without_repo_dup"} THEN "partial" ELSE "same",
                  keyop |-> CASE kind = "key_other_same_alg" -> "other_same_alg" [] kind = "key_other_alg" -> "other_alg"
                              [] kind = "keyset_without_signer" -> "without_signer" [] kind = "keyset_empty" -> "empty"
                              [] kind = "keyset_signer_plus_others" -> "signer_plus" [] OTHER -> "signer"]
